@@ -370,3 +370,35 @@ func VerifGenExtendsOwn() {
 	vrtObserve("got", got)
 	vrtAssert("own-value-applied-by-the-override-rules#"+cls, vrtDeepEqual(any(got), any(want)))
 }
+
+// C08: a typed (numeric) position that also admits a string takes the same value from a variable as from the
+// literal number. The example is generated twice: with numbers, and with `${ONE}` / `${ZERO}` / `${NEG}` in their place
+// wherever the schema lists "string" next to "number" / "integer".
+func VerifGenInterpNum() {
+	site, attr, value, _ := genPick("v1", "10", "1s")
+	genFiles()
+	doc := genDoc(site, attr, value)
+	cls := site.section + "." + attr
+	root := vrtSchemaTree()
+	defs, _ := root["definitions"].(map[string]any)
+	def, _ := defs[site.def].(map[string]any)
+	props, _ := def["properties"].(map[string]any)
+	pm, _ := props[attr].(map[string]any)
+	plain := (&gen{root: root, atom: "v1", num: "10", dur: "1s", key: genKey}).examples(pm, 0)
+	vars := (&gen{root: root, atom: "v1", num: "10", dur: "1s", key: genKey, numVar: true}).examples(pm, 0)
+	idx := genIndexOf(value, plain)
+	vrtAssume(idx >= 0 && idx < len(vars))
+	// only examples where something was replaced
+	vrtAssume(!vrtDeepEqual(plain[idx], vars[idx]))
+	pa, ea := tcLoadProject(types.Mapping{}, nil, doc)
+	vrtObserve("err", ea != nil)
+	vrtAssume(ea == nil)
+	pb, eb := tcLoadProject(types.Mapping{"ONE": "1", "ZERO": "0", "NEG": "-1"}, nil, genDoc(site, attr, vars[idx]))
+	if eb != nil {
+		vrtObserve("msg", eb.Error())
+	}
+	vrtAssert("number-through-variable-loads#"+cls, eb == nil)
+	if eb == nil {
+		genSameProject("number-through-variable:"+cls, pa, pb)
+	}
+}
